@@ -34,11 +34,10 @@ fn step(class: u8, tag: &str) -> (Pos, Mv, Pos) {
     let got = got.unwrap();
     let g = from_state(&got);
     let want = apply_ref(&p, m);
-    assert!(g.bb[0] == want.bb[0], "white placement after the move");
-    assert!(g.bb[1] == want.bb[1], "black placement after the move");
+    assert!(same_bb(&g.bb, &want.bb), "piece placement after the move (both colours)");
     assert!(none_slots_empty(&got), "no stray bits in unused piece slots");
     assert!(g.wtm == want.wtm, "other side to move");
-    assert!(g.rights == want.rights, "castling rights reduced exactly when king moves / rook leaves or is captured on its corner");
+    assert!(g.rights[0] == want.rights[0] && g.rights[1] == want.rights[1] && g.rights[2] == want.rights[2] && g.rights[3] == want.rights[3], "castling rights reduced exactly when king moves / rook leaves or is captured on its corner");
     assert!(g.ep == want.ep, "en-passant target exactly after a double pawn step");
     assert!(g.half == want.half, "halfmove clock reset on pawn moves and captures, else incremented");
     assert!(g.full == want.full, "fullmove number incremented after Black's move");
@@ -48,7 +47,7 @@ fn step(class: u8, tag: &str) -> (Pos, Mv, Pos) {
     let bocc: u64 = got.board().colored_occupancy(Color::Black).into();
     assert!(occ == want.occ() && wocc == want.occ_c(0) && bocc == want.occ_c(1), "occupancy summaries match the placement");
     // the input position is untouched (it is borrowed immutably; checked anyway)
-    assert!(from_state(&s) == p, "the original position is unchanged");
+    assert!(same_pos(&from_state(&s), &p), "the original position is unchanged");
     // C02.b: induction step — a legal move leads to a legal position again
     if legal_ref(&p, m) {
         assert!(structure_ok(&want), "successor keeps one king each, disjoint boards, no pawn on ranks 1/8");
@@ -108,7 +107,7 @@ fn ep_without_target_is_refused() {
     let mv = Move::by_en_passant(pi(p.us(), 1), sq(from), sq(to));
     let got = State::by_performing_move(&s, &mv);
     assert!(got.is_err(), "en passant without a pending target is rejected");
-    assert!(from_state(&s) == p, "the position is unchanged by the rejected move");
+    assert!(same_pos(&from_state(&s), &p), "the position is unchanged by the rejected move");
 }
 
 /// C02.c — coordinate selection: a query built the way the UCI loop builds it (origin, destination,
@@ -158,5 +157,5 @@ fn reach_witness() {
     let s = to_state(&p);
     let mv = build_move(&p, m);
     let got = State::by_performing_move(&s, &mv).unwrap();
-    assert!(from_state(&got) == p, "reach witness");
+    assert!(same_pos(&from_state(&got), &p), "reach witness");
 }
